@@ -128,7 +128,7 @@ m = {
               "kind_free_text": "TLA+ specifications under /verif/spec checked with TLC; Go harness records traces from the real code (module replace => /repo) and has TLC validate them; TLC-generated behaviours replayed into the real code"}],
  "checks": checks,
  "not_applicable": na,
- "notes": "One check per property: ./check <id> --tier quick|thorough. Exit 0 ok / 1 VIOLATION / 2 inconclusive. Known findings in known-findings.txt. Every concurrent component's implementation-shaped model is additionally bound to the code by hook-level trace validation (DRIFT lines, never a verdict). Beyond the listed properties the specification covers ten more components as extension checks ./check X01..X10 (spec/ext/*, harness/x01..x10; DESIGN.md section 6) - they are not properties and are not registered here. spec/INDEX.md lists every TLA+ module and configuration.",
+ "notes": "One check per property: ./check <id> --tier quick|thorough. Exit 0 ok / 1 VIOLATION / 2 inconclusive. Known findings in known-findings.txt. Every concurrent component's implementation-shaped model is additionally bound to the code by hook-level trace validation (DRIFT lines, never a verdict). Beyond the listed properties the specification covers thirteen more components as extension checks ./check X01..X13 (spec/ext/*, harness/x01..x13; DESIGN.md section 6) - they are not properties and are not registered here. spec/INDEX.md lists every TLA+ module and configuration.",
 }
 json.dump(m, open(os.path.join(ROOT, "MANIFEST.json"), "w"), indent=1)
 print("claimed:", sorted(CHECKS), "not_applicable:", len(na))
